@@ -8,13 +8,19 @@ ASSUMPTIONS = [
     "completion (Entry::notify) at a solver-chosen moment with a solver-chosen result Ok(n) / Err(os code)",
     "stub: compio_driver::panic::resume_unwind_io = identity (panic transport of thread-pool jobs is outside)",
     "<= 2 concurrently pending operations, <= 2 waker registrations, <= 2 token firings; drop-counting tagged buffers",
+    "second group (kani/driver-poll): compio-driver built with its polling feature, keys built through "
+    "__verif::detached_key (no epoll instance); observes that the final completion reaches the operation's own "
+    "OpCode::set_result (the stub configuration's Carry::set_result is a no-op)",
     "outside: whether iour/mod.rs and poll/mod.rs honour that driver contract (FFI, HashMap/flume, kernel behaviour), "
     "multishot and zero-copy completion ordering, the Submit/SubmitMulti futures (need a Runtime), timeouts",
 ]
 
 GROUP = Group("driver-stub", name="driver-stub", no_default_features=False, rustflags="--cfg compio_rs_compio_verif",
               zflags=("restrict-vtable", "stubbing"), jobs=6, mem_gb=12, timeout_s=900, stubbed=False)
-PLAN = [(GROUP, {"quick": ['c01_q_', 'c02_q_single_op'], "thorough": ["c01_t_"]})]
+GROUP_POLL = Group("driver-poll", name="driver-poll", no_default_features=False, rustflags="--cfg compio_rs_compio_verif",
+                   zflags=("restrict-vtable",), jobs=2, mem_gb=12, timeout_s=900, stubbed=False)
+PLAN = [(GROUP, {"quick": ['c01_q_', 'c02_q_single_op'], "thorough": ["c01_t_"]}),
+        (GROUP_POLL, {"quick": ['c01_q_'], "thorough": ["c01_t_"]})]
 
 
 def run(tier):
@@ -22,5 +28,8 @@ def run(tier):
 
 
 def replay(path):
+    import re
     import replaycmd
-    return replaycmd.replay_kani("C01", GROUP, path)
+    m = re.search(r"\(group ([\w-]+)", open(path).read())
+    g = GROUP_POLL if m and m.group(1) == GROUP_POLL.name else GROUP
+    return replaycmd.replay_kani("C01", g, path)
